@@ -358,6 +358,8 @@ def write_evidence(ctx, nviol, matched_known):
     cov.setdefault("distinct_nontrivial", 0)
     cov.setdefault("rule", "")
     cov.setdefault("samples", [])
+    if not cov["samples"]:
+        cov["samples"] = [{"note": "no case was completed by this run (inconclusive)"}]
     cov["known_findings_matched"] = matched_known
     if ctx.notes:
         cov["notes"] = ctx.notes
